@@ -39,6 +39,23 @@ ASSUMPTIONS = [
 ]
 
 
+def fixed_cases(tier):
+    """150 operations (node ids >= 100, 2100 disjunctive edges) through all
+    builders, and a solved graph of the same instance."""
+    big_inst = gen.big_classic(15, 10)
+    return [
+        {"kind": "builders", "inst": big_inst},
+        {
+            "kind": "solved",
+            "inst": big_inst,
+            "history": [[(3 * k + 1) % 8, 0] for k in range(150)],
+            "how": "dispatcher",
+            "filters": None,
+            "delays": [0],
+        },
+    ]
+
+
 def strategy(tier):
     big = tier == "thorough"
     inst = gen.instances(max_jobs=5, max_ops=5, max_machines=5, max_total=25 if big else 16, benchmarks=("ft06",))
